@@ -300,6 +300,10 @@ def check_parts(nparts, boost, order):
     names = PARTS[:nparts] if order == 0 else list(reversed(PARTS[:nparts]))
     if order == 2:
         names = PARTS[1:nparts + 1][:nparts] if nparts < 3 else [PARTS[1], PARTS[2], PARTS[0]]
+    if order == 3:          # stems that are suffixes / prefixes of one another
+        names = ["nonlinear", "linear", "part_a", "part"][:nparts + 1]
+    if order == 4:
+        names = ["part", "linear", "part_a", "nonlinear"][:nparts + 1]
     srcs = [os.path.join(DATA, "main.i")] + [os.path.join(DATA, n + ".i") for n in names]
     problems = []
     with patched_io() as rec:
@@ -346,10 +350,10 @@ def c16_pybind_parts(nparts: int, boost: int, order: int) -> bool:
     """
     Main output declares and invokes one initialiser per additional file, in order; each part's output defines
     exactly that initialiser and equals wrapping its text alone (same wrapper object used throughout).
-    pre: 0 <= nparts <= 3 and 0 <= boost <= 1 and 0 <= order <= 2
+    pre: 0 <= nparts <= 3 and 0 <= boost <= 1 and 0 <= order <= 4
     post: _
     """
-    nparts, boost, order = pick(nparts, 0, 4), pick(boost, 0, 2), pick(order, 0, 3)
+    nparts, boost, order = pick(nparts, 0, 4), pick(boost, 0, 2), pick(order, 0, 5)
     with concrete():
         ok = check_parts(nparts, boost, order)
     reached({"nparts": nparts, "boost": boost, "order": order})
@@ -484,7 +488,7 @@ def conds(tier):
                 bounds="file1: all strings of length <= %d over {/,*,newline,space,a,;}; file2: 3 fixed continuations" % (3 if q else 4)),
         xh.Cond(M, "c16_matlab_split", t(420, 1800), kind="shape-bounded", path_timeout=60, examples=["order=1, cut1=2, cut2=5, ending=2", "order=3, cut1=1, cut2=1, ending=1", "order=3, cut1=3, cut2=5, ending=0", "order=0, cut1=7, cut2=9, ending=1"],
                 bounds="4 declaration orders x all pairs of cut points among 10 declarations%s" % (" x 3 file endings" if not q else "; file ending derived")),
-        xh.Cond(M, "c16_pybind_parts", t(200, 900), kind="shape-bounded", examples=["nparts=2, boost=1, order=0"], bounds="0-3 additional files x serialization x 3 orders"),
+        xh.Cond(M, "c16_pybind_parts", t(200, 900), kind="shape-bounded", examples=["nparts=2, boost=1, order=0", "nparts=3, boost=0, order=3", "nparts=1, boost=1, order=3", "nparts=3, boost=1, order=4"], bounds="0-4 additional files x serialization x 5 orders (file stems that end in i, that are suffixes / prefixes of one another)"),
         xh.Cond(M, "c16_scripts", t(420, 1800), kind="shape-bounded", path_timeout=60, examples=["which=0, top=1, ign=2, boost=0, sub=0", "which=1, top=0, ign=0, boost=0, sub=1", "which=0, top=0, ign=0, boost=1, sub=1"],
                 bounds="2 scripts x 5 --top_module_namespaces values x 5 --ignore forms (absent, empty, one, two, a template instantiation whose name contains a comma) x serialization x (submodule | second file)"),
         xh.Cond(M, "c16_top_split", t(120, 600), examples=["v=''", "v='a::b'", "v='::a'"], bounds="all option values of length <= 6 over {a,b,:}"),
